@@ -20,6 +20,8 @@ func main() {
 	shrink := flag.Int("shrink", -1, "shrink the failing case with this id (program properties)")
 	shrinkModel := flag.Bool("shrink-model", false, "shrink with respect to the model M instead of the reference semantics S")
 	flag.IntVar(&workerFrom, "worker-from", -1, "internal: run as an isolated worker starting at this case id")
+	flag.IntVar(&c05From, "c05from", -1, "internal: C05 worker, first task")
+	flag.IntVar(&c05To, "c05to", -1, "internal: C05 worker, one past the last task")
 	flag.Parse()
 	if *replay != "" {
 		os.Exit(replayFile(*replay))
@@ -75,6 +77,8 @@ func main() {
 		runC17(*out, *seed, *tier)
 	case "C14":
 		runC14(*out, *seed, *tier)
+	case "C05":
+		runC05(*out, *seed, *tier, *repo)
 	case "C04":
 		runC04(*out, *seed, *tier)
 	default:
